@@ -77,6 +77,31 @@ def tgt_vs_tgt(pairs, seeds, fuel=40000, shard=12, name="diff2", timeout=900):
     return out
 
 
+def tgt_vs_tgt_guard(quads, seeds, fuel=40000, shard=12, name="diff2g", timeout=900):
+    """quads: list of (text1, entries1, text2, entries2); runs with the C07 guard."""
+    shards = [(i, quads[i:i + shard]) for i in range(0, len(quads), shard)]
+    seedl = "[" + "; ".join(f"{s}%Z" for s in seeds) + "]"
+
+    def nl(es):
+        return "[" + "; ".join(str(e) for e in es) + "]%nat"
+
+    def one(arg):
+        off, cs = arg
+        body = [HEADER]
+        for j, (a, ea, b, eb) in enumerate(cs):
+            body.append(f"Definition A{j} : @program float := {Parsed(a).coq()}.")
+            body.append(f"Definition B{j} : @program float := {Parsed(b).coq()}.")
+            body.append(f"Eval vm_compute in (cmp2g_float {fuel} A{j} {nl(ea)} B{j} {nl(eb)} {seedl}).")
+        res = _run_file(f"{name}_{off}", "\n".join(body), timeout)
+        return [_parse_verdicts(r) for r in res]
+
+    out = []
+    with ThreadPoolExecutor(max_workers=12) as ex:
+        for r in ex.map(one, shards):
+            out += r
+    return out
+
+
 def show_traces(prog_coq, text, seed, fs=600, ft=40000, name="trace"):
     body = [HEADER, f"Definition P0 : @prog float := {prog_coq}.",
             f"Definition T0 : @program float := {Parsed(text).coq()}.",
